@@ -34,6 +34,7 @@ FUNCS = [
     ("resultsGather", "framework/results/manager.py", "ResultsManager", "gather_results"),
     ("machineTransition", "framework/state_machine.py", "Machine", "transition"),
     ("createSimulants", "framework/population/manager.py", "PopulationManager", "_create_simulants"),
+    ("resourceSortedNodes", "framework/resource.py", "ResourceManager", "sorted_nodes"),
     ("viewGet", "framework/population/population_view.py", "PopulationView", "get"),
     ("engineStep", "framework/engine.py", "SimulationContext", "step"),
     ("engineInitializeSimulants", "framework/engine.py", "SimulationContext", "initialize_simulants"),
@@ -202,6 +203,9 @@ def stmt(s) -> str:
     if isinstance(s, ast.Try) and not s.orelse and not s.finalbody and len(s.handlers) == 1 and s.handlers[0].name is None \
             and (s.handlers[0].type is None or (isinstance(s.handlers[0].type, ast.Name) and s.handlers[0].type.id in ("Exception", "BaseException"))):
         return "(.tryS %s %s)" % (block(s.body), block(s.handlers[0].body))
+    if isinstance(s, ast.Try) and not s.orelse and not s.finalbody and len(s.handlers) == 1 and s.handlers[0].name is None \
+            and _exc_class(s.handlers[0].type) is not None:
+        return "(.tryC %s %s %s)" % (block(s.body), _q(_exc_class(s.handlers[0].type)), block(s.handlers[0].body))
     if isinstance(s, ast.Assert):
         return "(.assertS %s)" % expr(s.test)
     if isinstance(s, ast.Pass):
